@@ -59,9 +59,6 @@ def tSetsOneof (X : SchemaX) (d : MsgX) (a : TName × Bool × TV) : Option Nat :
   | .found fx => if isSingular fx then fx.oneofIdx else none
   | _ => none
 
-theorem skipT_match (v : TV) (sn : Ints) : (match skipT v with | _ => Head.skip sn) = Head.skip sn := by
-  cases skipT v <;> rfl
-
 /-- the shape of a successful head on a resolved field -/
 theorem tdHead_found (D : DOpts) (X : SchemaX) (d : MsgX) (limit : Int) (name : TName) (sep : Bool) (v : TV)
     (sn so : Ints) (fx : FieldX) (hr : resolveText X d name = .found fx) :
@@ -89,15 +86,9 @@ theorem tdHead_unknown_ok (D : DOpts) (X : SchemaX) (d : MsgX) (limit : Int) (na
   simp only
   by_cases h1 : (D.discard || d.reserved.contains s0) = true
   · simp only [h1, if_true]
-    by_cases h2 : D.skipLimited = true
-    · simp only [h2, if_true]
-      cases skipTFix limit v with
-      | error e => simp
-      | ok _ =>
-        refine ⟨by simp, ?_⟩
-        intro sn' h
-        cases h; rfl
-    · simp only [h2, if_false]
+    cases skipT limit v with
+    | error e => simp
+    | ok _ =>
       refine ⟨by simp, ?_⟩
       intro sn' h
       cases h; rfl
@@ -240,41 +231,41 @@ theorem tdHead_found_eq (D : DOpts) (X : SchemaX) (d : MsgX) (limit : Int) (name
     simp [isSingular, sepOK, hc, hk] <;> rfl
 
 mutual
-theorem skipTFix_err (limit : Int) : ∀ (v : TV) (e : Err), skipTFix limit v = .error e → e = .depth
-  | .scalar _, _, h => by simp [skipTFix] at h
+theorem skipT_err (limit : Int) : ∀ (v : TV) (e : Err), skipT limit v = .error e → e = .depth
+  | .scalar _, _, h => by simp [skipT] at h
   | .msg fs, e, h => by
-    rw [skipTFix] at h
+    rw [skipT] at h
     split at h
     · cases h; rfl
-    · exact skipTFieldsFix_err _ fs e h
+    · exact skipTFields_err _ fs e h
   | .list es, e, h => by
-    rw [skipTFix] at h
-    exact skipTElemsFix_err _ es e h
-theorem skipTFieldsFix_err (limit : Int) : ∀ (fs : TFields) (e : Err), skipTFieldsFix limit fs = .error e → e = .depth
-  | .nil, _, h => by simp [skipTFieldsFix] at h
+    rw [skipT] at h
+    exact skipTElems_err _ es e h
+theorem skipTFields_err (limit : Int) : ∀ (fs : TFields) (e : Err), skipTFields limit fs = .error e → e = .depth
+  | .nil, _, h => by simp [skipTFields] at h
   | .cons _ _ v tl, e, h => by
-    rw [skipTFieldsFix] at h
-    cases hv : skipTFix limit v with
-    | error e' => rw [hv] at h; cases h; exact skipTFix_err limit v e hv
-    | ok _ => rw [hv] at h; exact skipTFieldsFix_err limit tl e h
-theorem skipTElemsFix_err (limit : Int) : ∀ (es : TElems) (e : Err), skipTElemsFix limit es = .error e → e = .depth
-  | .nil, _, h => by simp [skipTElemsFix] at h
+    rw [skipTFields] at h
+    cases hv : skipT limit v with
+    | error e' => rw [hv] at h; cases h; exact skipT_err limit v e hv
+    | ok _ => rw [hv] at h; exact skipTFields_err limit tl e h
+theorem skipTElems_err (limit : Int) : ∀ (es : TElems) (e : Err), skipTElems limit es = .error e → e = .depth
+  | .nil, _, h => by simp [skipTElems] at h
   | .cons (.scalar t) tl, e, h => by
-    simp only [skipTElemsFix] at h
-    exact skipTElemsFix_err limit tl e h
+    simp only [skipTElems] at h
+    exact skipTElems_err limit tl e h
   | .cons (.list es) tl, e, h => by
-    simp only [skipTElemsFix] at h
-    exact skipTElemsFix_err limit tl e h
+    simp only [skipTElems] at h
+    exact skipTElems_err limit tl e h
   | .cons (.msg fs) tl, e, h => by
-    simp only [skipTElemsFix] at h
+    simp only [skipTElems] at h
     split at h
     · cases h; rfl
-    · cases hv : skipTFieldsFix (limit - 1) fs with
-      | error e' => rw [hv] at h; cases h; exact skipTFieldsFix_err _ fs e hv
-      | ok _ => rw [hv] at h; exact skipTElemsFix_err limit tl e h
+    · cases hv : skipTFields (limit - 1) fs with
+      | error e' => rw [hv] at h; cases h; exact skipTFields_err _ fs e hv
+      | ok _ => rw [hv] at h; exact skipTElems_err limit tl e h
 end
 
-/-- an unknown (or reserved) name fails only with "unknown field" or — after the repair — the depth error -/
+/-- an unknown (or reserved) name fails only with "unknown field" or the depth error of the skipped value -/
 theorem tdHead_unknown_err (D : DOpts) (X : SchemaX) (d : MsgX) (limit : Int) (name : TName) (sep : Bool) (v : TV)
     (sn so : Ints) (s0 : Str) (hr : resolveText X d name = .unknown s0) (e : Err)
     (h : tdHead D X d limit name sep v sn so = .error e) : e = .unknown ∨ e = .depth := by
@@ -282,14 +273,12 @@ theorem tdHead_unknown_err (D : DOpts) (X : SchemaX) (d : MsgX) (limit : Int) (n
   rw [hr] at h
   simp only at h
   split at h
-  · split at h
-    · cases hs : skipTFix limit v with
-      | error e' =>
-        rw [hs] at h
-        cases h
-        exact .inr (skipTFix_err limit v e hs)
-      | ok _ => rw [hs] at h; cases h
-    · cases h
+  · cases hs : skipT limit v with
+    | error e' =>
+      rw [hs] at h
+      cases h
+      exact .inr (skipT_err limit v e hs)
+    | ok _ => rw [hs] at h; cases h
   · cases h; exact .inl rfl
 
 theorem tdHead_dup (D : DOpts) (X : SchemaX) (d : MsgX) (limit : Int) (name : TName) (sep : Bool) (v : TV) (sn so : Ints) :
@@ -402,10 +391,10 @@ theorem tdHead_value_found (D : DOpts) (X : SchemaX) (d : MsgX) (limit : Int) (n
     · rw [hv] at h; cases h; rfl
     · rw [hv] at h; cases h; rfl
 
-/-- a skipping head belongs to an unknown or reserved name; after the repair the skipped value was checked -/
+/-- a skipping head belongs to an unknown or reserved name, and the skipped value passed `skipValue` -/
 theorem tdHead_skip_cases (D : DOpts) (X : SchemaX) (d : MsgX) (limit : Int) (name : TName) (sep : Bool) (v : TV)
     (sn so sn' : Ints) (h : tdHead D X d limit name sep v sn so = .skip sn') :
-    ∃ s0, resolveText X d name = .unknown s0 ∧ sn' = sn ∧ (D.skipLimited = true → skipTFix limit v = .ok ()) := by
+    ∃ s0, resolveText X d name = .unknown s0 ∧ sn' = sn ∧ skipT limit v = .ok () := by
   cases hr : resolveText X d name with
   | badNum => unfold tdHead at h; simp [hr] at h
   | badExt => unfold tdHead at h; simp [hr] at h
@@ -417,12 +406,11 @@ theorem tdHead_skip_cases (D : DOpts) (X : SchemaX) (d : MsgX) (limit : Int) (na
     · rw [hv] at h; cases h
   | unknown s0 =>
     refine ⟨s0, rfl, (tdHead_unknown_ok D X d limit name sep v sn so s0 hr).2 sn' h, ?_⟩
-    intro hl
     unfold tdHead at h
     rw [hr] at h
-    simp only [hl, if_true] at h
+    simp only at h
     split at h
-    · cases hs : skipTFix limit v with
+    · cases hs : skipT limit v with
       | error e => rw [hs] at h; cases h
       | ok u => rfl
     · cases h
